@@ -320,6 +320,17 @@ class Run:
                 return self.assume(n['then'], pol, vals, learned)
             if c is False:
                 return self.assume(n['else'], pol, vals, learned)
+            # unknown selector: whatever holds on *both* alternatives is learned as an 'Either' fact
+            la, lb = [], []
+            oka = self.assume(n['then'], pol, dict(vals), la)
+            okb = self.assume(n['else'], pol, dict(vals), lb)
+            if not oka and not okb:
+                return False
+            if oka and not okb:
+                return self.assume(n['cond'], True, vals, learned) and self.assume(n['then'], pol, vals, learned)
+            if okb and not oka:
+                return self.assume(n['cond'], False, vals, learned) and self.assume(n['else'], pol, vals, learned)
+            learned.append(({'k': 'Either', 'id': None, 'alts': [la, lb], 'ch': []}, pol))
             return True
         if k == 'CXXMemberCallExpr' and n.get('callee', '').endswith('::operator bool') and n['ch']:
             return self.assume(n['ch'][0], pol, vals, learned)
